@@ -23,7 +23,7 @@ def has_call(e):
     line with a call in it ends in a newline, whatever the call is"""
     if not isinstance(e, dict):
         return False
-    if e.get("k") in ("ts", "cc", "turns"):
+    if e.get("k") in ("ts", "cc", "turns", "tsv", "cntv"):
         return True
     return any(has_call(v) for v in e.values() if isinstance(v, dict))
 
@@ -63,6 +63,7 @@ class Gen:
         self.gather_labels = []   # labelled level-1 gathers: (full name, body of what follows the gather)
         self.label_bodies = {}
         self.kparams = {}         # knot / tunnel / thread name -> parameter names
+        self.dvars = {}           # global that holds a divert target -> the knots it may hold (all of one kind)
 
     # ------------------------------------------------------------------ helpers
     def has(self, f):
@@ -150,6 +151,11 @@ class Gen:
             return {"k": "ts", "n": t}, "TURNS_SINCE(-> %s)" % t
         if k < 0.8 and self.has("turns"):
             return {"k": "turns"}, "TURNS()"
+        if k < 0.83 and self.dvars and self.has("counts"):
+            d = r.choice(sorted(self.dvars))
+            if self.p(0.5):
+                return {"k": "cntv", "n": d}, "READ_COUNT(%s)" % d
+            return {"k": "tsv", "n": d}, "TURNS_SINCE(%s)" % d
         if k < 0.84 and self.has("choices"):
             return {"k": "cc"}, "CHOICE_COUNT()"
         a, ta = self.expr(depth + 1)
@@ -308,6 +314,10 @@ class Gen:
                 x = r.choice(ints)
                 st, t = self.call_stmt("set", x)
                 return [st, NL], ["%s~ %s = %s" % (ind, x, t)]
+        if self.dvars and self.p(0.12):
+            d = r.choice(sorted(self.dvars))
+            v = r.choice(self.dvars[d])
+            return [{"k": "set", "x": d, "e": {"k": "lit", "v": {"t": "div", "v": v}}}], ["%s~ %s = -> %s" % (ind, d, v)]
         typed = [g for g in self.globals if g["v"]["t"] in ("str", "bool")]
         if typed and self.p(0.25):
             g = r.choice(typed)
@@ -426,6 +436,14 @@ class Gen:
         return "END"
 
     def divert(self, ind, target=None):
+        knot = self.cur.split(".")[0]
+        me = int(knot[1:]) if knot.startswith("k") and self.kinds.get(knot, "knot") == "knot" else 0
+        usable = [d for d, vals in sorted(self.dvars.items()) if self.kinds.get(vals[0]) == "knot" and
+                  (all(int(v[1:]) > me for v in vals) or (self.has("loops") and self.after_choice))]
+        if target is None and usable and self.kinds.get(knot, "knot") in ("knot", "thread") and self.p(0.25):
+            # through a variable: wherever it points, the story does not run in circles within a turn
+            d = self.r.choice(usable)
+            return [{"k": "divv", "x": d}], [ind + "-> " + d]
         t = target or self.divert_target()
         if t == "END":
             return [{"k": "end"}], [ind + "-> END"]
@@ -478,8 +496,13 @@ class Gen:
                 # now and then the same tunnel several times in a row: with a tunnel that prints nothing, several visits
                 # of one container fall into a single look-ahead of the engine
                 reps = self.r.randint(2, 3) if self.p(0.9 if self.focus == "bursts" else 0.35) else 1
-                args, at = self.knot_args(t)
-                s, l = [{"k": "tun", "t": t, "args": args}] * reps, ["%s-> %s%s ->" % (ind, t, at)] * reps
+                tv = [d for d, vals in sorted(self.dvars.items()) if self.kinds.get(vals[0]) == "tunnel"]
+                if tv and self.kinds.get(self.cur.split(".")[0], "knot") == "knot" and self.p(0.3):
+                    d = self.r.choice(tv)
+                    s, l = [{"k": "tunv", "x": d}] * reps, ["%s-> %s ->" % (ind, d)] * reps
+                else:
+                    args, at = self.knot_args(t)
+                    s, l = [{"k": "tun", "t": t, "args": args}] * reps, ["%s-> %s%s ->" % (ind, t, at)] * reps
             elif (k < 0.97 or self.focus == "threads") and k >= (0.7 if self.focus == "threads" else 0.92) \
                     and self.has("threads") and self.thread_names() and level == 1:
                 ts = [self.r.choice(self.thread_names())]
@@ -778,6 +801,8 @@ class Gen:
                 return '"%s"' % "".join(chr(c) for c in v["v"])
             if v["t"] == "bool":
                 return "true" if v["v"] else "false"
+            if v["t"] == "div":
+                return "-> " + v["v"]
             return str(v["v"])
         if self.has("stitches"):
             for n in names[1:]:
@@ -788,6 +813,17 @@ class Gen:
             for n in names[1:] + [x for x, _ in extra]:
                 if n not in self.stitched and self.p(0.5):
                     self.kparams[n] = ["p%s_%d" % (n, j) for j in range(r.randint(1, 2))]
+        if self.has("divert_vars"):
+            # globals that hold divert targets: d<i> a plain knot other than the entry knot, w<i> a tunnel; no parameters
+            plain = [n for n in names[1:] if n not in self.kparams]
+            tunnels = [n for n, k in extra if k == "tunnel" and n not in self.kparams]
+            if plain and self.p(0.7):
+                vals = r.sample(plain, min(len(plain), r.randint(1, 2)))
+                self.dvars["d0"] = vals
+                self.globals.append({"n": "d0", "v": {"t": "div", "v": r.choice(vals)}})
+            if tunnels and self.p(0.5):
+                self.dvars["w0"] = list(tunnels)
+                self.globals.append({"n": "w0", "v": {"t": "div", "v": r.choice(tunnels)}})
         src = ["VAR %s = %s" % (g["n"], lit(g["v"])) for g in self.globals]
         self.cur = ""
         root = self.body([{"k": "div", "t": "k0"}])
